@@ -161,10 +161,16 @@ type procResult struct {
 
 // runGated starts the binary, waits until the gated request is held (or the child exits), delivers sig, releases the request and waits.
 func runGated(g *gateServer, sig syscall.Signal, args ...string) (*procResult, error) {
+	return runHeld(g.held, g.release, nil, sig, args...)
+}
+
+// runHeld is runGated for any server that closes held when the request of interest has arrived and lets it proceed
+// when release is closed.
+func runHeld(held <-chan struct{}, release chan struct{}, env []string, sig syscall.Signal, args ...string) (*procResult, error) {
 	cmd := exec.Command(desyncBin(), args...)
 	var out bytes.Buffer
 	cmd.Stdout, cmd.Stderr = &out, &out
-	cmd.Env = append(os.Environ(), "HOME=/nonexistent-verif-home")
+	cmd.Env = append(append(os.Environ(), "HOME=/nonexistent-verif-home"), env...)
 	if err := cmd.Start(); err != nil {
 		return nil, err
 	}
@@ -186,7 +192,7 @@ func runGated(g *gateServer, sig syscall.Signal, args ...string) (*procResult, e
 	case err := <-done:
 		finish(err)
 		return res, nil
-	case <-g.held:
+	case <-held:
 		res.heldSeen = true
 	case <-time.After(90 * time.Second):
 		cmd.Process.Kill()
@@ -197,7 +203,7 @@ func runGated(g *gateServer, sig syscall.Signal, args ...string) (*procResult, e
 	if sig != syscall.SIGKILL {
 		time.Sleep(30 * time.Millisecond) // let the handler cancel the context before the request completes
 	}
-	close(g.release)
+	close(release)
 	select {
 	case err := <-done:
 		finish(err)
